@@ -219,3 +219,79 @@ Print Assumptions C12_edges_wf_own.
 Print Assumptions C12_wf_mod_own_insufficient.
 Print Assumptions C12_wf_strong_inhabited.
 Print Assumptions C12_wf_project_reexport_example.
+
+(* ---- second part: analysis options, TYPE_CHECKING conditions, layouts (Deps/ImportsOpt.v, Deps/TcGuard.v) --------
+   The option-parametrised model is tied to the code by the correspondence check (harness/c12x.py, hook op imports_x). *)
+From PV Require Import Deps.ImportsOpt Deps.ImportsOptRun Deps.ImportsOptProofs Deps.TcGuard.
+
+(* for the default options (and no wildcard re-export, which Deps/Imports.v does not distinguish) the parametrised
+   model is the model of the first part, so every theorem above speaks about it too *)
+Theorem C12_options_default_is_model : forall pr order, star_free pr = true ->
+  AnalyzeFiles_o default_opts pr order = AnalyzeFiles pr order.
+Proof. exact AnalyzeFiles_o_default. Qed.
+
+(* follow_relative = false: exactly the relative import statements of the analysed files stop contributing *)
+Theorem C12_follow_relative_off : forall o pr order, o_rel o = false ->
+  AnalyzeFiles_o o pr order = AnalyzeFiles_o (set_rel o) pr (map strip_rel order).
+Proof. exact follow_relative_off. Qed.
+
+(* include_stdlib / include_third_party never change the graph of a project whose module directories all have an
+   __init__.py (for every project, every file order, every value of the other options) ... *)
+Theorem C12_include_options_irrelevant : forall o o' pr order,
+  o_rel o = o_rel o' -> o_excl o = o_excl o' -> dirs_have_init pr = true ->
+  AnalyzeFiles_o o pr order = AnalyzeFiles_o o' pr order.
+Proof. exact include_options_irrelevant. Qed.
+
+(* ... FULL STATEMENT without the hypothesis dirs_have_init is false (F62; `pyscn check --select deps` runs with
+   check_opts, C11 F66): two modules of a namespace package that import each other *)
+Theorem C12_include_third_party_refuted_namespace :
+  dirs_have_init w_namespace = false /\
+  edges_model_o default_opts w_namespace = [([1; 2], [1; 3]); ([1; 3], [1; 2])]%N /\
+  edges_py w_namespace = [([1; 2], [1; 3]); ([1; 3], [1; 2])]%N /\
+  edges_model_o check_opts w_namespace = [].
+Proof. exact include_third_party_matters. Qed.
+
+(* src layout (F64) and wildcard re-export (F61): refuting witnesses *)
+Theorem C12_edges_refuted_src_layout :
+  edges_py w_src = [([1; 3; 4], [1; 2]); ([1; 5], [1; 2])]%N /\
+  edges_model_o default_opts w_src = edges_py w_src /\
+  edges_model_o default_opts (add_prefix [9%N] w_src) = [([9; 1; 5], [9; 1; 2])]%N /\
+  prefix_edges [9%N] (edges_py (drop_deep_abs w_src)) = [([9; 1; 5], [9; 1; 2])]%N.
+Proof. exact src_layout_loses_edges. Qed.
+
+Theorem C12_edges_refuted_wildcard_reexport :
+  let written_out := w_star [Build_iname 7%N 7%N; Build_iname 8%N 8%N] in
+  let wildcard := w_star [Build_iname star star] in
+  (In ([5], [1; 2])%N (edges_py written_out)) /\
+  (edges_model_o default_opts written_out = [([5], [1; 2])]%N) /\
+  (edges_model_o default_opts wildcard = [([5], [1])]%N) /\
+  (class_wildcard_reexport wildcard = true) /\ (star_free wildcard = false).
+Proof. exact wildcard_reexport_not_followed. Qed.
+
+(* `if TYPE_CHECKING:`, `if typing.TYPE_CHECKING:` and every conjunction with one of them on either side is recognised
+   as type-checking-only, and Python never runs its body *)
+Theorem C12_tc_guard_conjunction_agrees : forall e, tc_conjunction e = true -> model_tc e = true /\ spec_tc e = true.
+Proof. exact tc_conjunction_agrees. Qed.
+
+(* a condition that does not mention TYPE_CHECKING, and every `not ...`, is runtime code for the analyser *)
+Theorem C12_tc_guard_only_if_mentioned : forall e, containsTypeChecking e = false -> model_tc e = false.
+Proof. exact no_tc_not_guard. Qed.
+
+(* FULL STATEMENT "model_tc e = spec_tc e for every condition" is false (F63): `TYPE_CHECKING or True` and
+   `TYPE_CHECKING == False` are true at run time and taken for type-checking guards *)
+Theorem C12_tc_guard_refuted_or : model_tc (GOr GTc (GFlag true)) = true /\ spec_tc (GOr GTc (GFlag true)) = false.
+Proof. exact guard_refuted_or. Qed.
+
+Theorem C12_tc_guard_refuted_compare : model_tc (GEq GTc (GFlag false)) = true /\ spec_tc (GEq GTc (GFlag false)) = false.
+Proof. exact guard_refuted_compare. Qed.
+
+Print Assumptions C12_options_default_is_model.
+Print Assumptions C12_follow_relative_off.
+Print Assumptions C12_include_options_irrelevant.
+Print Assumptions C12_include_third_party_refuted_namespace.
+Print Assumptions C12_edges_refuted_src_layout.
+Print Assumptions C12_edges_refuted_wildcard_reexport.
+Print Assumptions C12_tc_guard_conjunction_agrees.
+Print Assumptions C12_tc_guard_only_if_mentioned.
+Print Assumptions C12_tc_guard_refuted_or.
+Print Assumptions C12_tc_guard_refuted_compare.
